@@ -1,1 +1,457 @@
-//! Reference model (see /verif/SEMANTICS.md)
+//! Reference model of the Redis semantics named in the properties (see /verif/SEMANTICS.md).
+//! Boring on purpose: ordered maps, a clock value, nothing else.
+
+use crate::resp::{self, R};
+use std::collections::{BTreeMap, BTreeSet, VecDeque};
+
+pub mod cmds;
+pub mod glob;
+pub mod streams;
+
+pub type Bytes = Vec<u8>;
+
+#[derive(Clone, Debug, PartialEq)]
+pub enum Val {
+    Str(Bytes),
+    List(VecDeque<Bytes>),
+    Set(BTreeSet<Bytes>),
+    Hash(BTreeMap<Bytes, Bytes>),
+    ZSet(BTreeMap<Bytes, f64>),
+    Stream(streams::StreamM),
+}
+
+impl Val {
+    pub fn type_name(&self) -> &'static str {
+        match self {
+            Val::Str(_) => "string",
+            Val::List(_) => "list",
+            Val::Set(_) => "set",
+            Val::Hash(_) => "hash",
+            Val::ZSet(_) => "zset",
+            Val::Stream(_) => "stream",
+        }
+    }
+    pub fn size(&self) -> usize {
+        match self {
+            Val::Str(b) => b.len(),
+            Val::List(l) => l.len(),
+            Val::Set(s) => s.len(),
+            Val::Hash(h) => h.len(),
+            Val::ZSet(z) => z.len(),
+            Val::Stream(s) => s.entries.len(),
+        }
+    }
+}
+
+#[derive(Clone, Debug, PartialEq)]
+pub struct Entry {
+    pub val: Val,
+    /// absolute virtual monotonic ns
+    pub deadline: Option<u64>,
+}
+
+#[derive(Clone, Debug, Default, PartialEq)]
+pub struct Db {
+    pub keys: BTreeMap<Bytes, Entry>,
+}
+
+/// What the model expects as the reply of one command (normal form, see DESIGN §3.6)
+pub enum Exp {
+    Is(R),
+    Err,
+    /// array whose element order is unspecified
+    AnyOrder(Vec<R>),
+    /// flat array k,v,k,v… compared as a multiset of pairs
+    PairsAnyOrder(Vec<(R, R)>),
+    OneOf(Vec<Exp>),
+    IntIn(i64, i64),
+    /// bulk string holding a float equal to this
+    Score(f64),
+    /// flat array member,score,… in this order, scores compared numerically
+    ScoredSeq(Vec<(Bytes, f64)>),
+    /// members only, in order
+    Seq(Vec<Bytes>),
+    /// free-form predicate with a description
+    Pred(String, Box<dyn Fn(&R) -> bool>),
+    /// anything goes (don't care)
+    Any,
+}
+
+pub fn same(e: &R, a: &R) -> bool {
+    match (e, a) {
+        (R::Err(_), R::Err(_)) => true,
+        (R::NilArr, R::Arr(v)) | (R::Arr(v), R::NilArr) => v.is_empty(),
+        (R::Arr(x), R::Arr(y)) => x.len() == y.len() && x.iter().zip(y.iter()).all(|(p, q)| same(p, q)),
+        _ => e == a,
+    }
+}
+
+fn as_items(a: &R) -> Option<Vec<R>> {
+    match a {
+        R::Arr(v) => Some(v.clone()),
+        R::NilArr => Some(Vec::new()),
+        _ => None,
+    }
+}
+
+pub fn parse_score_bytes(b: &[u8]) -> Option<f64> {
+    let s = std::str::from_utf8(b).ok()?;
+    match s.to_ascii_lowercase().as_str() {
+        "inf" | "+inf" | "infinity" | "+infinity" => Some(f64::INFINITY),
+        "-inf" | "-infinity" => Some(f64::NEG_INFINITY),
+        "nan" | "-nan" | "+nan" => Some(f64::NAN),
+        _ => s.parse::<f64>().ok(),
+    }
+}
+
+fn score_eq(x: f64, y: f64) -> bool {
+    x == y || (x.is_nan() && y.is_nan())
+}
+
+fn multiset_eq(x: &[R], y: &[R]) -> bool {
+    if x.len() != y.len() {
+        return false;
+    }
+    let mut a: Vec<String> = x.iter().map(resp::show).collect();
+    let mut b: Vec<String> = y.iter().map(resp::show).collect();
+    a.sort();
+    b.sort();
+    a == b
+}
+
+impl Exp {
+    pub fn matches(&self, a: &R) -> bool {
+        match self {
+            Exp::Is(e) => same(e, a),
+            Exp::Err => a.is_err(),
+            Exp::AnyOrder(items) => match as_items(a) {
+                Some(v) => multiset_eq(items, &v),
+                None => false,
+            },
+            Exp::PairsAnyOrder(pairs) => match as_items(a) {
+                Some(v) => {
+                    if v.len() != pairs.len() * 2 {
+                        return false;
+                    }
+                    let mut got: Vec<String> = v.chunks(2).map(|c| format!("{}={}", resp::show(&c[0]), resp::show(&c[1]))).collect();
+                    let mut want: Vec<String> = pairs.iter().map(|(k, v)| format!("{}={}", resp::show(k), resp::show(v))).collect();
+                    got.sort();
+                    want.sort();
+                    got == want
+                }
+                None => false,
+            },
+            Exp::OneOf(v) => v.iter().any(|e| e.matches(a)),
+            Exp::IntIn(lo, hi) => matches!(a, R::Int(i) if i >= lo && i <= hi),
+            Exp::Score(s) => match a {
+                R::Bulk(b) | R::Simple(b) => parse_score_bytes(b).map(|x| score_eq(x, *s)).unwrap_or(false),
+                R::Double(d) => score_eq(*d, *s),
+                _ => false,
+            },
+            Exp::ScoredSeq(items) => match as_items(a) {
+                Some(v) => {
+                    v.len() == items.len() * 2
+                        && v.chunks(2).zip(items.iter()).all(|(c, (m, s))| {
+                            c[0] == R::Bulk(m.clone())
+                                && match &c[1] {
+                                    R::Bulk(b) => parse_score_bytes(b).map(|x| score_eq(x, *s)).unwrap_or(false),
+                                    R::Double(d) => score_eq(*d, *s),
+                                    _ => false,
+                                }
+                        })
+                }
+                None => false,
+            },
+            Exp::Seq(items) => match as_items(a) {
+                Some(v) => v.len() == items.len() && v.iter().zip(items.iter()).all(|(x, m)| *x == R::Bulk(m.clone())),
+                None => false,
+            },
+            Exp::Pred(_, f) => f(a),
+            Exp::Any => true,
+        }
+    }
+
+    /// outcome class for signatures
+    pub fn class(&self) -> String {
+        match self {
+            Exp::Is(r) => resp::class(r),
+            Exp::Err => "err".into(),
+            Exp::AnyOrder(v) => format!("arr[{}]", v.len()),
+            Exp::PairsAnyOrder(v) => format!("arr[{}]", v.len() * 2),
+            Exp::OneOf(v) => v.iter().map(|e| e.class()).collect::<Vec<_>>().join("/"),
+            Exp::IntIn(a, b) => format!(":{}..{}", a, b),
+            Exp::Score(s) => format!("score {}", s),
+            Exp::ScoredSeq(v) => format!("arr[{}]", v.len() * 2),
+            Exp::Seq(v) => format!("arr[{}]", v.len()),
+            Exp::Pred(d, _) => d.clone(),
+            Exp::Any => "any".into(),
+        }
+    }
+
+    /// long description for replay files
+    pub fn describe(&self) -> String {
+        match self {
+            Exp::Is(r) => resp::show(r),
+            Exp::Err => "an error reply".into(),
+            Exp::AnyOrder(v) => format!("any order of [{}]", v.iter().map(resp::show).collect::<Vec<_>>().join(" ")),
+            Exp::PairsAnyOrder(v) => format!("any order of pairs [{}]", v.iter().map(|(k, v)| format!("{}={}", resp::show(k), resp::show(v))).collect::<Vec<_>>().join(" ")),
+            Exp::OneOf(v) => v.iter().map(|e| e.describe()).collect::<Vec<_>>().join(" | "),
+            Exp::IntIn(a, b) => format!("integer in {}..={}", a, b),
+            Exp::Score(s) => format!("score {}", s),
+            Exp::ScoredSeq(v) => format!("[{}]", v.iter().map(|(m, s)| format!("{} {}", resp::show_bytes(m), s)).collect::<Vec<_>>().join(", ")),
+            Exp::Seq(v) => format!("[{}]", v.iter().map(|m| resp::show_bytes(m)).collect::<Vec<_>>().join(" ")),
+            Exp::Pred(d, _) => d.clone(),
+            Exp::Any => "anything".into(),
+        }
+    }
+}
+
+/// Result of judging one command
+#[derive(Debug, Clone)]
+pub struct Judged {
+    pub ok: bool,
+    pub exp_class: String,
+    pub exp_desc: String,
+}
+
+#[derive(Clone, Debug, PartialEq)]
+pub struct Model {
+    pub dbs: Vec<Db>,
+    /// virtual monotonic now, set by the driver before each command
+    pub now: u64,
+    /// virtual wall clock in ms, set by the driver before each command
+    pub wall_ms: u64,
+}
+
+impl Model {
+    pub fn new() -> Model {
+        Model { dbs: (0..16).map(|_| Db::default()).collect(), now: 0, wall_ms: 0 }
+    }
+
+    pub fn set_clock(&mut self) {
+        self.now = crate::vtime::mono_ns();
+        self.wall_ms = crate::vtime::wall_ms();
+    }
+
+    /// remove `key` if its deadline has passed; returns whether a live entry exists
+    pub fn purge(&mut self, db: usize, key: &[u8]) -> bool {
+        let now = self.now;
+        let d = &mut self.dbs[db];
+        match d.keys.get(key) {
+            Some(e) => {
+                if let Some(dl) = e.deadline {
+                    if now >= dl {
+                        d.keys.remove(key);
+                        return false;
+                    }
+                }
+                true
+            }
+            None => false,
+        }
+    }
+
+    pub fn purge_all(&mut self) {
+        let now = self.now;
+        for d in self.dbs.iter_mut() {
+            d.keys.retain(|_, e| e.deadline.map(|dl| now < dl).unwrap_or(true));
+        }
+    }
+
+    pub fn get(&mut self, db: usize, key: &[u8]) -> Option<&Entry> {
+        if self.purge(db, key) {
+            self.dbs[db].keys.get(key)
+        } else {
+            None
+        }
+    }
+
+    pub fn get_mut(&mut self, db: usize, key: &[u8]) -> Option<&mut Entry> {
+        if self.purge(db, key) {
+            self.dbs[db].keys.get_mut(key)
+        } else {
+            None
+        }
+    }
+
+    pub fn set(&mut self, db: usize, key: &[u8], val: Val, deadline: Option<u64>) {
+        self.dbs[db].keys.insert(key.to_vec(), Entry { val, deadline });
+    }
+
+    pub fn del(&mut self, db: usize, key: &[u8]) -> bool {
+        let live = self.purge(db, key);
+        if live {
+            self.dbs[db].keys.remove(key);
+        }
+        live
+    }
+
+    /// remove the key if its collection became empty (streams excepted)
+    pub fn drop_if_empty(&mut self, db: usize, key: &[u8]) {
+        let empty = match self.dbs[db].keys.get(key) {
+            Some(e) => match &e.val {
+                Val::List(l) => l.is_empty(),
+                Val::Set(s) => s.is_empty(),
+                Val::Hash(h) => h.is_empty(),
+                Val::ZSet(z) => z.is_empty(),
+                _ => false,
+            },
+            None => false,
+        };
+        if empty {
+            self.dbs[db].keys.remove(key);
+        }
+    }
+
+    /// class of a key's state for signatures: type, size class, ttl flag
+    pub fn key_class(&self, db: usize, key: &[u8]) -> String {
+        match self.dbs[db].keys.get(key) {
+            None => "absent".into(),
+            Some(e) => {
+                if let Some(dl) = e.deadline {
+                    if self.now >= dl {
+                        return format!("expired-{}", e.val.type_name());
+                    }
+                }
+                let n = e.val.size();
+                let sz = match n {
+                    0 => "0".to_string(),
+                    1 => "1".to_string(),
+                    2 => "2".to_string(),
+                    3 => "3".to_string(),
+                    _ => "4+".to_string(),
+                };
+                let ttl = if e.deadline.is_some() { "+ttl" } else { "" };
+                if let Val::Str(b) = &e.val {
+                    if strict_i64(b).is_some() {
+                        return format!("string:int{}", ttl);
+                    }
+                    if lenient_i64(b).is_some() {
+                        return format!("string:lenient-int{}", ttl);
+                    }
+                }
+                format!("{}({}){}", e.val.type_name(), sz, ttl)
+            }
+        }
+    }
+
+    /// canonical text of the model state (for fingerprints): deadlines relative to now
+    pub fn canon(&self, ms_base: u64) -> String {
+        let mut out = String::new();
+        for (i, d) in self.dbs.iter().enumerate() {
+            if d.keys.is_empty() {
+                continue;
+            }
+            out.push_str(&format!("db{}:", i));
+            for (k, e) in d.keys.iter() {
+                if let Some(dl) = e.deadline {
+                    if self.now >= dl {
+                        continue;
+                    }
+                }
+                let v = match &e.val {
+                    Val::Stream(s) => s.canon(ms_base),
+                    Val::ZSet(z) => format!("zset{:?}", z.iter().map(|(m, s)| (m.clone(), s.to_bits())).collect::<Vec<_>>()),
+                    other => format!("{:?}", other),
+                };
+                let dl = e.deadline.map(|d| format!("{}", d as i128 - self.now as i128)).unwrap_or_else(|| "-".into());
+                out.push_str(&format!("{:?}={} ttl={};", k, v, dl));
+            }
+        }
+        out
+    }
+}
+
+/// Redis string2ll: strict signed 64-bit integer
+pub fn strict_i64(b: &[u8]) -> Option<i64> {
+    if b.is_empty() || b.len() > 20 {
+        return None;
+    }
+    let (neg, digits) = if b[0] == b'-' { (true, &b[1..]) } else { (false, b) };
+    if digits.is_empty() {
+        return None;
+    }
+    if digits.len() == 1 && digits[0] == b'0' {
+        return if neg { None } else { Some(0) };
+    }
+    if !(b'1'..=b'9').contains(&digits[0]) {
+        return None;
+    }
+    let mut v: u64 = 0;
+    for &c in digits {
+        if !c.is_ascii_digit() {
+            return None;
+        }
+        v = v.checked_mul(10)?.checked_add((c - b'0') as u64)?;
+    }
+    if neg {
+        if v > (i64::MAX as u64) + 1 {
+            None
+        } else {
+            Some((v as i128 * -1) as i64)
+        }
+    } else if v > i64::MAX as u64 {
+        None
+    } else {
+        Some(v as i64)
+    }
+}
+
+/// what Rust's `str::parse::<i64>` accepts (the lenient parser ferrous uses)
+pub fn lenient_i64(b: &[u8]) -> Option<i64> {
+    std::str::from_utf8(b).ok()?.parse::<i64>().ok()
+}
+
+#[derive(Debug, Clone, Copy, PartialEq)]
+pub enum FloatArg {
+    Val(f64),
+    Invalid,
+    /// spelling whose acceptance is don't-care (e.g. "infinity", "1e400", hex floats)
+    DontCare,
+}
+
+/// Score / increment argument per SEMANTICS: strtod with the whole string consumed, no leading space, NaN rejected
+pub fn float_arg(b: &[u8]) -> FloatArg {
+    let s = match std::str::from_utf8(b) {
+        Ok(s) => s,
+        Err(_) => return FloatArg::Invalid,
+    };
+    if s.is_empty() || s.starts_with(char::is_whitespace) || s.ends_with(char::is_whitespace) {
+        return FloatArg::Invalid;
+    }
+    let low = s.to_ascii_lowercase();
+    match low.as_str() {
+        "inf" | "+inf" => return FloatArg::Val(f64::INFINITY),
+        "-inf" => return FloatArg::Val(f64::NEG_INFINITY),
+        "nan" | "-nan" | "+nan" => return FloatArg::Invalid,
+        "infinity" | "+infinity" | "-infinity" => return FloatArg::DontCare,
+        _ => {}
+    }
+    if low.starts_with("0x") || low.starts_with("-0x") || low.starts_with("+0x") {
+        return FloatArg::DontCare;
+    }
+    match s.parse::<f64>() {
+        Ok(v) => {
+            if v.is_nan() {
+                FloatArg::Invalid
+            } else if v.is_infinite() {
+                FloatArg::DontCare // out-of-range decimal such as 1e400
+            } else {
+                FloatArg::Val(v)
+            }
+        }
+        Err(_) => FloatArg::Invalid,
+    }
+}
+
+pub fn bulk(b: &[u8]) -> R {
+    R::Bulk(b.to_vec())
+}
+
+pub fn int(i: i64) -> R {
+    R::Int(i)
+}
+
+pub fn upper(b: &[u8]) -> String {
+    String::from_utf8_lossy(b).to_ascii_uppercase()
+}
